@@ -287,7 +287,7 @@ Proof.
   pose proof (be_val_bound _ Hres) as Hb. rewrite Hlen in Hb.
   rewrite be_val_app_repeat0 in Hb |- *.
   rewrite (be_val_firstn_skipn q bytes).
-  symmetry. apply Z.mod_unique with (q := be_val (firstn q bytes)); [left; exact Hb|].
+  apply Z.mod_unique with (q := be_val (firstn q bytes)); [left; exact Hb|].
   replace (length bytes) with ((length bytes - q) + q)%nat at 2 by lia.
   rewrite pow256_add. ring.
 Qed.
@@ -312,3 +312,378 @@ Proof.
   pose proof (pow256_pos q) as Hp.
   rewrite Z.div_add_l by lia. rewrite (Z.div_small _ _ Hb). lia.
 Qed.
+
+(* ================================================================== B2. shl_carry *)
+
+Definition shl_f (bytes : list Z) (len byte_shift bit_shift : Z) (st : Z * list Z) (i : Z)
+  : outcome (Z * list Z) :=
+  let (carry, acc) := st in
+  if i + byte_shift <? len
+  then match nth_error bytes (Z.to_nat (i + byte_shift)) with
+       | Some src => Val (Z.shiftr src (8 - bit_shift),
+                          Z.lor (wrap_u8 (Z.shiftl src bit_shift)) carry :: acc)
+       | None => Panic 5 end
+  else Val (carry, 0 :: acc).
+
+Lemma shl_carry_unfold bytes len q rr :
+  shl_carry bytes len q rr =
+  (st <- ofold (shl_f bytes len q rr) (rev (zrange len)) (0, []) ;; Val (snd st)).
+Proof. reflexivity. Qed.
+
+(* state after the indices n-1, ..., i have been processed *)
+Definition shl_inv (bytes : list Z) (q : nat) (rr : Z) (i : nat) (carry : Z) (acc : list Z) : Prop :=
+  length acc = (length bytes - i)%nat /\ bytes_ok acc /\ 0 <= carry < 2 ^ rr
+  /\ ((length bytes <= i + q)%nat -> carry = 0)
+  /\ carry * 256 ^ Z.of_nat (length bytes - i) + be_val acc
+     = be_val (skipn (i + q) bytes) * 2 ^ rr * 256 ^ Z.of_nat q.
+
+Lemma shl_step_arith s p h m carry A B X Y :
+  s * p = 256 * h + m -> carry * (A * B) + X = Y * p * B ->
+  h * (256 * (A * B)) + ((m + carry) * (A * B) + X) = (s * A + Y) * p * B.
+Proof.
+  intros H1 H2.
+  replace (h * (256 * (A * B)) + ((m + carry) * (A * B) + X))
+    with ((256 * h + m) * (A * B) + (carry * (A * B) + X)) by ring.
+  rewrite <- H1, H2. ring.
+Qed.
+
+Lemma shl_step bytes q rr i carry acc :
+  bytes_ok bytes -> 1 <= rr <= 7 -> (S i <= length bytes)%nat ->
+  shl_inv bytes q rr (S i) carry acc ->
+  exists carry' acc',
+    shl_f bytes (Z.of_nat (length bytes)) (Z.of_nat q) rr (carry, acc) (Z.of_nat i) = Val (carry', acc')
+    /\ shl_inv bytes q rr i carry' acc'.
+Proof.
+  intros Hok Hrr Hi (Hlen & Hacc & Hc & Hc0 & Heq).
+  unfold shl_f.
+  destruct (Z.ltb_spec (Z.of_nat i + Z.of_nat q) (Z.of_nat (length bytes))) as [Hlt|Hge].
+  - destruct (nth_byte bytes (Z.of_nat i + Z.of_nat q) Hok ltac:(lia)) as [s [Es Hs]].
+    rewrite Es. do 2 eexists. split; [reflexivity|].
+    destruct (shl_byte rr s carry Hrr Hs Hc) as [Eb Hb].
+    destruct (shl_carry_byte rr s Hrr Hs) as [Ec Hcb].
+    pose proof (Z.mod_pos_bound (s * 2 ^ rr) 256 ltac:(lia)) as Hm.
+    rewrite Eb, Ec.
+    unfold shl_inv. split; [cbn [length]; lia|].
+    split; [constructor; [lia|exact Hacc]|].
+    split; [exact Hcb|]. split; [lia|].
+    replace (Z.to_nat (Z.of_nat i + Z.of_nat q)) with (i + q)%nat in Es by lia.
+    rewrite (skipn_nth_cons bytes (i + q) s Es).
+    rewrite !be_val_cons, Hlen, skipn_length.
+    change (S i + q)%nat with (S (i + q)) in Heq.
+    replace (length bytes - i)%nat with (S (length bytes - S i)) by lia.
+    rewrite pow256_S.
+    replace (length bytes - S i)%nat with ((length bytes - S (i + q)) + q)%nat in Heq |- * by lia.
+    rewrite pow256_add in Heq |- *.
+    apply shl_step_arith; [|exact Heq].
+    rewrite (Z.div_mod (s * 2 ^ rr) 256) at 1 by lia. reflexivity.
+  - do 2 eexists. split; [reflexivity|].
+    assert (E0 : carry = 0) by (apply Hc0; lia). subst carry.
+    unfold shl_inv. split; [cbn [length]; lia|].
+    split; [constructor; [lia|exact Hacc]|].
+    split; [exact Hc|]. split; [reflexivity|].
+    rewrite skipn_all2 in Heq |- * by lia.
+    rewrite be_val_cons, be_val_nil in *. lia.
+Qed.
+
+Lemma shl_loop bytes q rr : bytes_ok bytes -> 1 <= rr <= 7 ->
+  forall i carry acc, (i <= length bytes)%nat -> shl_inv bytes q rr i carry acc ->
+  exists carry' acc',
+    ofold (shl_f bytes (Z.of_nat (length bytes)) (Z.of_nat q) rr) (rev (zrange (Z.of_nat i))) (carry, acc)
+      = Val (carry', acc')
+    /\ shl_inv bytes q rr 0 carry' acc'.
+Proof.
+  intros Hok Hrr. induction i as [|i IH]; intros carry acc Hi Hinv.
+  - exists carry, acc. split; [reflexivity | exact Hinv].
+  - rewrite Nat2Z.inj_succ, <- Z.add_1_r, zrange_succ by lia.
+    rewrite rev_app_distr. cbn [rev app ofold].
+    destruct (shl_step bytes q rr i carry acc Hok Hrr Hi Hinv) as (c1 & a1 & E1 & Hinv1).
+    rewrite E1. cbn [obind]. apply IH; [lia | exact Hinv1].
+Qed.
+
+Lemma shl_carry_ok bytes q rr : bytes_ok bytes -> (q <= length bytes)%nat -> 1 <= rr <= 7 ->
+  exists res, shl_carry bytes (Z.of_nat (length bytes)) (Z.of_nat q) rr = Val res
+    /\ length res = length bytes /\ bytes_ok res
+    /\ be_val res = (be_val bytes * (256 ^ Z.of_nat q * 2 ^ rr)) mod 256 ^ Z.of_nat (length bytes).
+Proof.
+  intros Hok Hq Hrr.
+  assert (Hinit : shl_inv bytes q rr (length bytes) 0 []).
+  { unfold shl_inv. split; [cbn [length]; lia|]. split; [constructor|].
+    pose proof (pow2_rr_le rr Hrr). split; [lia|]. split; [reflexivity|].
+    rewrite skipn_all2 by lia. rewrite be_val_nil. lia. }
+  destruct (shl_loop bytes q rr Hok Hrr (length bytes) 0 [] (le_n _) Hinit)
+    as (c & res & E & (Hlen & Hres & Hc & _ & Heq)).
+  exists res. rewrite shl_carry_unfold, E. cbn [obind snd].
+  split; [reflexivity|]. rewrite Nat.sub_0_r in Hlen, Heq. cbn [Nat.add] in Heq.
+  split; [exact Hlen|]. split; [exact Hres|].
+  pose proof (be_val_bound res Hres) as Hb. rewrite Hlen in Hb.
+  apply Z.mod_unique with (q := be_val (firstn q bytes) * 2 ^ rr + c); [left; exact Hb|].
+  rewrite (be_val_firstn_skipn q bytes) at 1.
+  replace (256 ^ Z.of_nat (length bytes)) with (256 ^ Z.of_nat (length bytes - q) * 256 ^ Z.of_nat q) in Heq |- *
+    by (rewrite <- pow256_add; f_equal; lia).
+  transitivity (be_val (firstn q bytes) * 2 ^ rr * (256 ^ Z.of_nat (length bytes - q) * 256 ^ Z.of_nat q)
+                + be_val (skipn q bytes) * 2 ^ rr * 256 ^ Z.of_nat q); [ring|].
+  rewrite <- Heq. ring.
+Qed.
+
+(* ================================================================== B3. shr_carry *)
+
+Definition shr_f (bytes : list Z) (byte_shift bit_shift : Z) (st : Z * list Z) (i : Z)
+  : outcome (Z * list Z) :=
+  let (carry, acc) := st in
+  if byte_shift <=? i
+  then match nth_error bytes (Z.to_nat (i - byte_shift)) with
+       | Some src => Val (wrap_u8 (Z.shiftl src (8 - bit_shift)),
+                          Z.lor (Z.shiftr src bit_shift) carry :: acc)
+       | None => Panic 7 end
+  else Val (carry, 0 :: acc).
+
+Lemma shr_carry_unfold bytes len q rr :
+  shr_carry bytes len q rr =
+  (st <- ofold (shr_f bytes q rr) (zrange len) (0, []) ;; Val (rev (snd st))).
+Proof. reflexivity. Qed.
+
+Lemma ofold_app {A S} (f : S -> A -> outcome S) l1 l2 s :
+  ofold f (l1 ++ l2) s = (s' <- ofold f l1 s ;; ofold f l2 s').
+Proof.
+  revert s. induction l1 as [|x t IH]; intros s; [reflexivity|].
+  cbn [app ofold]. destruct (f s x) as [s1|e|p]; cbn [obind]; [apply IH | reflexivity | reflexivity].
+Qed.
+
+Lemma firstn_S_nth {A} (l : list A) k x : nth_error l k = Some x -> firstn (S k) l = firstn k l ++ [x].
+Proof.
+  revert l. induction k as [|k IH]; intros [|y l] H; try discriminate.
+  - cbn in H. injection H as ->. reflexivity.
+  - cbn [nth_error] in H. cbn [firstn app]. f_equal. exact (IH l H).
+Qed.
+
+Lemma be_val_firstn_div bytes q : bytes_ok bytes -> (q <= length bytes)%nat ->
+  be_val (firstn (length bytes - q) bytes) = be_val bytes / 256 ^ Z.of_nat q.
+Proof.
+  intros Hok Hq.
+  rewrite (be_val_firstn_skipn (length bytes - q) bytes).
+  replace (length bytes - (length bytes - q))%nat with q by lia.
+  pose proof (be_val_bound _ (Forall_skipn_keep _ (length bytes - q)%nat _ Hok)) as Hb.
+  rewrite skipn_length in Hb. replace (length bytes - (length bytes - q))%nat with q in Hb by lia.
+  pose proof (pow256_pos q) as Hp.
+  rewrite Z.div_add_l by lia. rewrite (Z.div_small _ _ Hb). lia.
+Qed.
+
+(* state after the indices 0, ..., i-1 have been processed; acc is the reversed prefix *)
+Definition shr_inv (bytes : list Z) (q : nat) (rr : Z) (i : nat) (carry : Z) (acc : list Z) : Prop :=
+  length acc = i /\ bytes_ok acc
+  /\ be_val (rev acc) = be_val (firstn (i - q) bytes) / 2 ^ rr
+  /\ carry = (be_val (firstn (i - q) bytes) mod 2 ^ rr) * 2 ^ (8 - rr).
+
+Lemma shr_step_arith P s a b : 0 < a -> a * b = 256 ->
+  (P * 256 + s) / a = (P / a) * 256 + (P mod a) * b + s / a /\ (P * 256 + s) mod a = s mod a.
+Proof.
+  intros Ha Hab.
+  replace (P * 256 + s) with (P * b * a + s) by (rewrite <- Hab; ring).
+  split.
+  - rewrite Z.div_add_l by lia. rewrite <- Hab.
+    rewrite (Z.div_mod P a) at 1 by lia. ring.
+  - rewrite Z.add_comm. apply Z_mod_plus_full.
+Qed.
+
+Lemma shr_step bytes q rr i carry acc :
+  bytes_ok bytes -> 1 <= rr <= 7 -> (S i <= length bytes)%nat ->
+  shr_inv bytes q rr i carry acc ->
+  exists carry' acc',
+    shr_f bytes (Z.of_nat q) rr (carry, acc) (Z.of_nat i) = Val (carry', acc')
+    /\ shr_inv bytes q rr (S i) carry' acc'.
+Proof.
+  intros Hok Hrr Hi (Hlen & Hacc & Hv & Hc).
+  pose proof (pow2_rr_le rr Hrr) as Hp. pose proof (pow2_split rr Hrr) as Hsplit.
+  unfold shr_f.
+  destruct (Z.leb_spec (Z.of_nat q) (Z.of_nat i)) as [Hle|Hgt].
+  - destruct (nth_byte bytes (Z.of_nat i - Z.of_nat q) Hok ltac:(lia)) as [s [Es Hs]].
+    rewrite Es. do 2 eexists. split; [reflexivity|].
+    replace (Z.to_nat (Z.of_nat i - Z.of_nat q)) with (i - q)%nat in Es by lia.
+    set (P := be_val (firstn (i - q) bytes)) in *.
+    pose proof (Z.mod_pos_bound P (2 ^ rr) ltac:(lia)) as Ht.
+    destruct (shr_byte rr s (P mod 2 ^ rr) Hrr Hs Ht) as [Eb Hb].
+    rewrite <- Hc in Eb, Hb.
+    rewrite Eb, (shr_carry_byte rr s Hrr Hs).
+    destruct (shr_step_arith P s (2 ^ rr) (2 ^ (8 - rr)) ltac:(lia) Hsplit) as [Hdiv Hmod].
+    unfold shr_inv. split; [cbn [length]; lia|].
+    split; [constructor; [exact Hb | exact Hacc]|].
+    replace (S i - q)%nat with (S (i - q)) by lia.
+    rewrite (firstn_S_nth bytes (i - q) s Es), be_val_snoc. fold P.
+    cbn [rev]. rewrite be_val_snoc, Hv, Hdiv, Hmod, Hc. split; [ring | reflexivity].
+  - do 2 eexists. split; [reflexivity|].
+    replace (i - q)%nat with 0%nat in Hv, Hc by lia. cbn [firstn] in Hv, Hc.
+    rewrite be_val_nil in Hv, Hc.
+    rewrite Z.div_0_l in Hv by lia. rewrite Z.mod_0_l in Hc by lia.
+    unfold shr_inv. split; [cbn [length]; lia|].
+    split; [constructor; [lia | exact Hacc]|].
+    replace (S i - q)%nat with 0%nat by lia. cbn [firstn rev].
+    rewrite be_val_snoc, be_val_nil, Hv.
+    rewrite Z.div_0_l by lia. rewrite Z.mod_0_l by lia. split; [reflexivity | exact Hc].
+Qed.
+
+Lemma shr_loop bytes q rr : bytes_ok bytes -> 1 <= rr <= 7 ->
+  forall i, (i <= length bytes)%nat ->
+  exists carry acc,
+    ofold (shr_f bytes (Z.of_nat q) rr) (zrange (Z.of_nat i)) (0, []) = Val (carry, acc)
+    /\ shr_inv bytes q rr i carry acc.
+Proof.
+  intros Hok Hrr. pose proof (pow2_rr_le rr Hrr) as Hp.
+  induction i as [|i IH]; intros Hi.
+  - exists 0, []. split; [reflexivity|].
+    unfold shr_inv. cbn [Nat.sub firstn rev length]. rewrite be_val_nil.
+    rewrite Z.div_0_l by lia. rewrite Z.mod_0_l by lia.
+    split; [reflexivity|]. split; [constructor|]. split; reflexivity.
+  - destruct (IH ltac:(lia)) as (c & acc & E & Hinv).
+    rewrite Nat2Z.inj_succ, <- Z.add_1_r, zrange_succ by lia.
+    rewrite ofold_app, E. cbn [obind ofold].
+    destruct (shr_step bytes q rr i c acc Hok Hrr Hi Hinv) as (c1 & a1 & E1 & Hinv1).
+    rewrite E1. cbn [obind]. exists c1, a1. split; [reflexivity | exact Hinv1].
+Qed.
+
+Lemma shr_carry_ok bytes q rr : bytes_ok bytes -> (q <= length bytes)%nat -> 1 <= rr <= 7 ->
+  exists res, shr_carry bytes (Z.of_nat (length bytes)) (Z.of_nat q) rr = Val res
+    /\ length res = length bytes /\ bytes_ok res
+    /\ be_val res = be_val bytes / (256 ^ Z.of_nat q * 2 ^ rr).
+Proof.
+  intros Hok Hq Hrr. pose proof (pow2_rr_le rr Hrr) as Hp.
+  destruct (shr_loop bytes q rr Hok Hrr (length bytes) (le_n _)) as (c & acc & E & (Hlen & Hacc & Hv & _)).
+  exists (rev acc). rewrite shr_carry_unfold, E. cbn [obind snd].
+  split; [reflexivity|]. split; [rewrite rev_length; exact Hlen|].
+  split; [apply Forall_rev; exact Hacc|].
+  rewrite Hv, be_val_firstn_div by assumption.
+  pose proof (pow256_pos q) as Hq256.
+  apply Z.div_div; lia.
+Qed.
+
+(* ================================================================== E. the builtin *)
+
+Definition shift_num (bytes : list Z) (k : Z) : Z :=
+  if 0 <=? k then (be_val bytes * 2 ^ k) mod 256 ^ Z.of_nat (length bytes)
+  else be_val bytes / 2 ^ (- k).
+
+Lemma shift_finish (loop : outcome (list Z)) res n v :
+  loop = Val res -> length res = n -> Z.of_nat n <= MAX_BINARY_SIZE -> bytes_ok res -> be_val res = v ->
+  (r <- loop ;; alloc_bytes r) = Val (BBin (Owned (be_bytes n v))).
+Proof.
+  intros -> Hlen Hn Hok Hv. cbn [obind].
+  rewrite (be_bytes_unique n v res Hlen Hok Hv) at 1.
+  apply alloc_bytes_ok. rewrite be_bytes_length. exact Hn.
+Qed.
+
+Lemma shift_body bytes k :
+  bytes_ok bytes -> Z.of_nat (length bytes) <= MAX_BINARY_SIZE -> k <> 0 -> - two63 <= k < two63 ->
+  (let len := Z.of_nat (length bytes) in
+   let shift_bits := Z.abs k in
+   if negb (in_u64 (len * 8)) then Panic 3 else
+   if len * 8 <=? shift_bits then alloc_bytes (repeat 0 (length bytes))
+   else
+     let sb := wrap_u32 shift_bits in
+     let byte_shift := sb / 8 in
+     let bit_shift := sb mod 8 in
+     res <- (if 0 <? k
+             then if bit_shift =? 0 then shl_aligned bytes len byte_shift
+                  else shl_carry bytes len byte_shift bit_shift
+             else if bit_shift =? 0 then shr_aligned bytes len byte_shift
+                  else shr_carry bytes len byte_shift bit_shift) ;;
+     alloc_bytes res)
+  = Val (BBin (Owned (be_bytes (length bytes) (shift_num bytes k)))).
+Proof.
+  intros Hok Hn Hk0 Hk. cbv zeta.
+  set (n := length bytes) in *.
+  assert (Hmax : MAX_BINARY_SIZE = 16777216) by reflexivity.
+  assert (Hu : in_u64 (Z.of_nat n * 8) = true).
+  { unfold in_u64, two64. apply andb_true_intro. split; [apply Z.leb_le | apply Z.ltb_lt]; lia. }
+  rewrite Hu. cbn [negb].
+  pose proof (be_val_bound bytes Hok) as HV. fold n in HV.
+  pose proof (pow256_pos n) as Hpn.
+  destruct (Z.leb_spec (Z.of_nat n * 8) (Z.abs k)) as [Hbig|Hsmall].
+  - (* everything shifted out *)
+    rewrite alloc_bytes_ok by (rewrite repeat_length; exact Hn).
+    do 3 f_equal. rewrite <- be_bytes_0. unfold shift_num. fold n.
+    destruct (Z.leb_spec 0 k) as [Hpos|Hneg].
+    + f_equal. symmetry.
+      replace k with (8 * Z.of_nat n + (k - 8 * Z.of_nat n)) by lia.
+      rewrite Z.pow_add_r by lia. rewrite <- pow256_pow2.
+      replace (be_val bytes * (256 ^ Z.of_nat n * 2 ^ (k - 8 * Z.of_nat n)))
+        with (be_val bytes * 2 ^ (k - 8 * Z.of_nat n) * 256 ^ Z.of_nat n) by ring.
+      apply Z_mod_mult.
+    + f_equal. symmetry. apply Z.div_small. split; [lia|].
+      apply Z.lt_le_trans with (256 ^ Z.of_nat n); [lia|].
+      rewrite pow256_pow2. apply Z.pow_le_mono_r; lia.
+  - (* the loops *)
+    assert (Hw : wrap_u32 (Z.abs k) = Z.abs k).
+    { unfold wrap_u32. apply Z.mod_small. lia. }
+    rewrite Hw.
+    set (k' := Z.abs k) in *.
+    pose proof (Z.div_mod k' 8 ltac:(lia)) as Hdm.
+    pose proof (Z.mod_pos_bound k' 8 ltac:(lia)) as Hrr.
+    set (rr := k' mod 8) in *.
+    assert (Hq : 0 <= k' / 8 < Z.of_nat n) by (split; [apply Z.div_pos; lia | apply Z.div_lt_upper_bound; lia]).
+    rewrite <- (Z2Nat.id (k' / 8)) in Hdm |- * by lia.
+    set (q := Z.to_nat (k' / 8)) in *.
+    assert (Hqn : (q <= n)%nat) by lia.
+    assert (Hpow : 2 ^ k' = 256 ^ Z.of_nat q * 2 ^ rr).
+    { rewrite Hdm, Z.pow_add_r by lia. rewrite <- pow256_pow2. reflexivity. }
+    unfold shift_num. fold n.
+    destruct (Z.ltb_spec 0 k) as [Hpos|Hneg].
+    + destruct (Z.leb_spec 0 k) as [_|Hbad]; [|lia].
+      replace k with k' by lia.
+      destruct (Z.eqb_spec rr 0) as [Hr0|Hr0].
+      * destruct (shl_aligned_ok bytes q Hok Hqn) as (res & E & Hlen & Hres & Hv).
+        apply (shift_finish _ res); try assumption.
+        rewrite Hv, Hpow, Hr0, Z.pow_0_r, Z.mul_1_r. reflexivity.
+      * destruct (shl_carry_ok bytes q rr Hok Hqn ltac:(lia)) as (res & E & Hlen & Hres & Hv).
+        apply (shift_finish _ res); try assumption.
+        rewrite Hv, Hpow. reflexivity.
+    + destruct (Z.leb_spec 0 k) as [Hbad|_]; [lia|].
+      replace (- k) with k' by lia.
+      destruct (Z.eqb_spec rr 0) as [Hr0|Hr0].
+      * destruct (shr_aligned_ok bytes q Hok Hqn) as (res & E & Hlen & Hres & Hv).
+        apply (shift_finish _ res); try assumption.
+        rewrite Hv, Hpow, Hr0, Z.pow_0_r, Z.mul_1_r. reflexivity.
+      * destruct (shr_carry_ok bytes q rr Hok Hqn ltac:(lia)) as (res & E & Hlen & Hres & Hv).
+        apply (shift_finish _ res); try assumption.
+        rewrite Hv, Hpow. reflexivity.
+Qed.
+
+Lemma binary_shift_shaped r k : wf r ->
+  flatten_out (impl_binary_shift (BTup [BBin r; BInt k]))
+    = spec_binary_shift (flatten (BTup [BBin r; BInt k]))
+  /\ wf_out (impl_binary_shift (BTup [BBin r; BInt k])).
+Proof.
+  intros Hwf.
+  pose proof (bytes_of_ok r Hwf) as Hok.
+  assert (Hn : Z.of_nat (length (bytes_of r)) <= MAX_BINARY_SIZE).
+  { rewrite <- rlen_bytes_of by exact Hwf. apply wf_rlen_bound. exact Hwf. }
+  cbn [flatten map]. unfold impl_binary_shift, spec_binary_shift, to_i64_checked.
+  destruct (in_i64 k) eqn:Ei; cbn [obind].
+  - unfold in_i64 in Ei. apply andb_prop in Ei. destruct Ei as [Ei1 Ei2].
+    apply Z.leb_le in Ei1. apply Z.ltb_lt in Ei2.
+    destruct (Z.eqb_spec k 0) as [Hk0|Hk0].
+    + subst k. cbn [flatten_out flatten wf_out wf_bval]. split; [|exact Hwf].
+      do 2 f_equal. change (0 <=? 0) with true. cbv iota.
+      rewrite Z.pow_0_r, Z.mul_1_r, <- be_bytes_mod, be_bytes_be_val by exact Hok. reflexivity.
+    + pose proof (shift_body (bytes_of r) k Hok Hn Hk0 (conj Ei1 Ei2)) as Hb.
+      cbv zeta in Hb |- *. rewrite Hb.
+      cbn [flatten_out flatten bytes_of wf_out wf_bval wf]. split; [reflexivity|].
+      split; [apply be_bytes_ok | rewrite be_bytes_length; exact Hn].
+  - cbn [flatten_out wf_out]. split; [reflexivity | exact I].
+Qed.
+
+Theorem binary_shift_correct : agrees impl_binary_shift spec_binary_shift.
+Proof.
+  intros a Ha.
+  destruct a as [z|r|fs|]; try (split; [reflexivity | exact I]).
+  destruct fs as [|x [|y [|w t]]]; try (split; [reflexivity | exact I]).
+  - destruct x; split; (reflexivity || exact I).
+  - destruct x as [z|r|fs|]; try (split; [reflexivity | exact I]).
+    destruct y as [k|r2|fs|]; try (split; [reflexivity | exact I]).
+    destruct Ha as [Hwf _]. apply binary_shift_shaped. exact Hwf.
+  - destruct x as [z|r|fs|]; try (split; [reflexivity | exact I]).
+    destruct y as [k|r2|fs|]; split; (reflexivity || exact I).
+Qed.
+
+Example binary_shift_example :
+  flatten_out (impl_binary_shift (BTup [BBin (Concat (Owned [1;2]) (Owned [3]) 3); BInt 4])) = Val (FBin [16;32;48]) /\
+  flatten_out (impl_binary_shift (BTup [BBin (Owned [1;2;3]); BInt (-12)])) = Val (FBin [0;0;16]).
+Proof. split; vm_compute; reflexivity. Qed.
